@@ -2,6 +2,7 @@
 Correspondence: md.load / load_frame / iterload / load(list) on real tagged files vs Model/Cursor.lean
 (driver `load`, `loadframe`, `iter`).  Oracle: python slicing of the known frame list + field comparison
 against the full load.  Every call on the real code runs in a forked child (a crash or hang is a result)."""
+import os
 import warnings
 
 import numpy as np
@@ -255,6 +256,24 @@ def run(ctx):
         ctx.case(desc, res["nontriv"])
         ctx.count("calls:" + kind)
         ctx.count("ext:" + ext)
+    # atom_indices must commute with every load decision, including the PDB reader's decision to discard a dummy CRYST1 record
+    try:
+        import mdtraj as md
+        env0 = next(iter(envs.values()))
+        base = md.load(env0.paths["pdb"]) if "pdb" in env0.paths else None
+        if base is not None and base.n_atoms >= 6:
+            tiny = md.Trajectory(base.xyz[:1].copy(), base.topology, unitcell_lengths=np.full((1, 3), 0.2), unitcell_angles=np.full((1, 3), 90.0))
+            pth = os.path.join(ctx.scratch, "dummy_cell.pdb")
+            tiny.save(pth)
+            full = md.load(pth)
+            for ai in ([0], [0, 1, 2], list(range(base.n_atoms))):
+                part = md.load(pth, atom_indices=ai)
+                ctx.case(None, ("pdb-dummy-cell", tuple(ai))); ctx.count("calls:pdb-dummy-cell")
+                if (full.unitcell_lengths is None) != (part.unitcell_lengths is None):
+                    seen.setdefault("pdb|atom_indices|dummy-cell", ("md.load(pdb with a 0.2 nm CRYST1 cell): the unit cell is %s for the whole file but %s with atom_indices=%s" % (
+                        "discarded" if full.unitcell_lengths is None else "kept", "discarded" if part.unitcell_lengths is None else "kept", ai), dict(atom_indices=ai)))
+    except Exception as e:  # noqa: BLE001
+        ctx.broke("harness:pdb-dummy-cell", "%s: %s" % (type(e).__name__, e))
     for key, (what, rp) in seen.items():
         ctx.violation(key, what, rp)
 
